@@ -139,6 +139,9 @@ def evaluate(case) -> Result:
             hbh += 1
             t_before = w.k.now
             ref_before = ref
+            glued = None
+            if "+" in s:                 # "A+B": both messages arrive in one segment
+                s, glued = s.split("+")
             if s in ("ADV1", "ADVT"):
                 dt = 1 if s == "ADV1" else T + c["timers"]["wakeup"] + 2
                 w.advance(dt)
@@ -148,7 +151,11 @@ def evaluate(case) -> Result:
                     if sent_cer:
                         continue
                     sent_cer = True
-                if not w.feed_msg(conn, m):
+                data = W.build_msg(m)
+                if glued:
+                    data += W.build_msg(make_msg(glued, hbh + 0x1000, conn, c))
+                    res.classes.append("pipelined")
+                if not w.feed(conn, data):
                     break
                 if state in ("awaiting", "rejected5010"):
                     ref = int(w.k.now)
@@ -201,6 +208,9 @@ def evaluate(case) -> Result:
                     known = kind != "CER_unknown"
                     shares = kind in ("CER_known",) and bool(auth | acct)
                     relay = kind == "CER_relay"
+                    behind = new[1:] if glued else []
+                    if glued:
+                        new = new[:1]
                     ceas = [f for f in new if f.code == W.CMD_CE and not f.is_request]
                     if len(new) != 1 or len(ceas) != 1:
                         res.v("C06/in/cer/answer-count", f"{kind} answered with {[f.brief() for f in new]}")
@@ -215,13 +225,26 @@ def evaluate(case) -> Result:
                             want = 5010
                         if rc != want:
                             res.v(f"C06/in/cer/result/{kind}", f"{kind}: Result-Code {rc}, expected {want}")
+                        if glued and want != 2001:
+                            res.classes.append("pipelined-behind-rejected-cer")
+                            if behind:
+                                res.v("C06/in/gate/answered-behind-rejected-cer",
+                                      f"{glued} in the same segment as a CER answered {want} was answered with {[f.brief() for f in behind]}")
+                            if new_req:
+                                res.v("C06/in/gate/delivered-behind-rejected-cer",
+                                      f"{glued} in the same segment as a CER answered {want} reached an application")
+                            new_req = 0
+                        elif glued:
+                            new_req = 0
                         if want == 2001:
                             peer = w.node.peers.get("peer1.example")
-                            if not is_ready:
+                            if glued in ("DPR", "DPA"):
+                                pass                  # the connection is already on its way out again
+                            elif not is_ready:
                                 res.v("C06/in/cer/not-ready", "2001 sent but the connection is not ready")
                             elif peer is None or peer.connection is not nc:
                                 res.v("C06/in/cer/peer-not-assigned", "2001 sent, ready, but Peer.connection is not this connection")
-                            state = "ready"
+                            state = "left" if glued in ("DPR", "DPA") else "ready"
                             outcome = "ready"
                         elif want == 3010:
                             if not conn.node_closed:
@@ -240,14 +263,18 @@ def evaluate(case) -> Result:
                     if new_req:
                         res.v("C06/in/cer/delivered", "a CER reached an application")
                 else:   # outbound, a CEA
-                    if new:
+                    if new and not (glued and s in ("CEA_2001", "CEA_2001_vsa")):
                         res.v("C06/out/cea/answered", f"{s} was answered with {[f.brief() for f in new]}")
                     if s in ("CEA_2001", "CEA_2001_vsa"):
-                        if not is_ready:
+                        if not is_ready and glued not in ("DPR", "DPA"):
                             res.v("C06/out/cea/not-ready", "2001 CEA received but the connection is not ready")
-                        state = "ready"
+                        state = "left" if glued in ("DPR", "DPA") else "ready"
                         outcome = "ready"
                     else:
+                        if glued:
+                            res.classes.append("pipelined-behind-rejected-cea")
+                            if new_req:
+                                res.v("C06/out/gate/delivered-behind-rejected-cea", f"{glued} behind {s} reached an application")
                         if is_ready:
                             res.v("C06/out/cea/rejected-ready", f"{s} made the connection ready")
                         if not conn.node_closed:
@@ -334,7 +361,7 @@ def make_msg(s, hbh, conn, c):
 
 
 def valid_seq(direction, syms):
-    n_cer = sum(1 for s in syms if s in CER_SYMS)
+    n_cer = sum(1 for s in syms if s.split("+")[0] in CER_SYMS)
     if direction == "in" and n_cer > 1:
         return False
     return True
@@ -352,6 +379,15 @@ def shard_main(shard, nshards, tier, scale):
                 for seq in itertools.product(syms, repeat=d):
                     if valid_seq(direction, seq):
                         jobs.append({"cfg": ci, "dir": direction, "syms": list(seq)})
+    # two messages in one segment: a capabilities-exchange message with any other message right behind it
+    behind_syms = ["DWR", "DWA", "DPR", "DPA", "REQ", "ANS"]
+    for ci in range(len(CONFIGS)):
+        for prefix in ([], ["DWR"], ["ADV1"]):
+            for b in behind_syms:
+                for a in sorted(CER_SYMS):
+                    jobs.append({"cfg": ci, "dir": "in", "syms": prefix + [f"{a}+{b}", "ADV1", "REQ"]})
+                for a in ("CEA_2001", "CEA_3xxx", "CEA_5xxx"):
+                    jobs.append({"cfg": ci, "dir": "out", "syms": prefix + [f"{a}+{b}", "ADV1", "REQ"]})
     if shard == 0:
         rec.extra["enumerated_histories"] = len(jobs)
     rec.extra["enumeration_depth"] = depth
@@ -373,6 +409,8 @@ def shard_main(shard, nshards, tier, scale):
                 if seen_cer:
                     continue
                 seen_cer = True
+            if ((s in CER_SYMS and direction == "in") or (s.startswith("CEA_") and direction == "out")) and draw(st.booleans()):
+                s = s + "+" + draw(st.sampled_from(["DWR", "DWA", "DPR", "DPA", "REQ", "ANS"]))
             out.append(s)
         return {"cfg": draw(st.integers(0, len(CONFIGS) - 1)), "dir": direction, "syms": out,
                 "seed": draw(st.integers(0, 3))}
@@ -391,7 +429,8 @@ def run(tier, scale=1.0):
     for d in hyp.pool_run(shard_main, (tier, scale)):
         rec.merge(d)
     required = {"dir:in": 1, "dir:out": 1, "outcome:ready": 1, "outcome:3010": 1, "outcome:5010": 1,
-                "outcome:rejected": 1, "outcome:timeout": 1, "noise:True": 1, "len:6": 1}
+                "outcome:rejected": 1, "outcome:timeout": 1, "noise:True": 1, "len:6": 1,
+                "pipelined-behind-rejected-cer": 1, "pipelined-behind-rejected-cea": 1}
     return finish(rec, tier=tier, level="exploration", rule=RULE, assumptions=ASSUME, t0=t0,
                   required_classes=required,
                   extra_cov={"exhaustive_part": "all symbol sequences up to the enumeration depth for 2 base configurations x 2 directions"})
